@@ -12,6 +12,10 @@ mod s_ggm;
 mod o_ggm;
 mod s_ppoprf;
 mod o_ppoprf;
+mod s_codec;
+mod o_codec;
+mod s_agg;
+mod o_agg;
 
 fn main() {
   let args: Vec<String> = std::env::args().collect();
@@ -36,6 +40,9 @@ fn main() {
     "ristretto" => s_ppoprf::ristretto(tier, seed),
     "ppoprf" => s_ppoprf::ppoprf(tier, seed),
     "server" => s_ppoprf::server(tier, seed),
+    "codec" => s_codec::codec(tier, seed),
+    "wasm" => s_agg::wasm(tier, seed),
+    "agg" => s_agg::agg(tier, seed),
     w if w.starts_with("oracle:") => oracle::run(&w[7..], tier, seed),
     _ => {
       eprintln!("unknown stream {}", what);
